@@ -48,6 +48,12 @@ def prepare(chemicals, skip_checks):
 
 # %% Chemicals
 
+def unpickle_compiled_chemicals(chemicals, groups):
+    chemicals = CompiledChemicals(chemicals)
+    for name, (IDs, composition) in groups.items():
+        chemicals.define_group(name, IDs, composition)
+    return chemicals
+
 class Chemicals:
     """
     Create a Chemicals object that contains Chemical objects as attributes.
@@ -374,7 +380,9 @@ class CompiledChemicals(Chemicals):
                 'set_alias') + self.IDs
     
     def __reduce__(self):
-        return CompiledChemicals, (self.tuple,)
+        groups = {name: (self.chemical_group_members(name), self._group_mol_compositions[name])
+                  for name in self._group_mol_compositions}
+        return unpickle_compiled_chemicals, (self.tuple, groups)
     
     def compile(self, skip_checks=False):
         """Do nothing, CompiledChemicals objects are already compiled.""" 
